@@ -424,6 +424,13 @@ def stepProg (env : Env) (w : World) : Sexp → Option (World × Env × Prog)
       | some (.publish _ _ _ conns) =>
         some (w, env, .cellRead conns false fun l => forEach l.toList subUnsub)
       | _ => none
+  -- C05: `n` clones of one Subscription (subscription.rs: call-and-clear of a SHARED slot), each unsubscribed (odd ones
+  -- through a Using guard), then the original: the teardown has run once after the first, and never again
+  | .list [.atom "subhandles", n] => do
+      let n ← n.asNat
+      some (w, env, .probe (200 * 4 + 3) (.int 1) .done ;;
+        forEach (List.range n) (fun _ => .probe (201 * 4 + 3) (.int 1) .done) ;;
+        .probe (201 * 4 + 3) (.int (if n == 0 then 1 else 1)) .done ;; .probe (200 * 4 + 3) (.int 0) .done)
   -- C08, last clause: `n` tasks posted to a default scheduler; each runs inside `post` on the posting thread
   -- (record `x(100+i):1`), then `post` returns (record `x(100+i):2`)
   | .list [.atom "dpost", n] => do
